@@ -21,7 +21,7 @@ CHECKS = {
              ref='DESIGN.md section 4 C02', note=E1NOTE + '; page size stubbed to 256; cbmc 6.11 trusted for the algebra part'),
  'C03': dict(engine='E3 asm->SMT + E1 symex', technique='bit-precise SMT semantics of the assembled context switch (z3 validity queries over all register/flag/MXCSR/memory contents) + symbolic execution of the coroutine bookkeeping',
              text='The nasm-assembled switch and trampoline are translated instruction by instruction into z3 terms; round trip (callee-saved registers, MXCSR, user-visible RFLAGS, stack pointer, return address, handed-over value), frame condition and the initial frame written by the real cmi_coroutine_context_init (symbolically executed) are validity queries with no bound on the machine state. Coroutine scripts (start/yield/resume/transfer/exit/return/stop/restart, nested yields, symbolic messages) check message delivery, caller/parent bookkeeping and that locals survive.',
-             ref='DESIGN.md section 4 C03', note='trusted: nasm+objdump disassembly, the hand-written semantics of the 14 instruction forms that occur (any other form fails the check), popf at CPL 3, z3; x87 control word, AVX state, signal mask and stack exhaustion are outside; E1 part: ' + E1NOTE),
+             ref='DESIGN.md section 4 C03', note='trusted: nasm+objdump disassembly, the hand-written semantics of the instruction forms that occur (any other form gives no verdict, exit 2), popf at CPL 3, z3; x87 control word, AVX state, signal mask and stack exhaustion are outside; E1 part: ' + E1NOTE),
  'C04': sim('Scripts combining hold, timers (add/cancel/clear), interrupts, stops, wait-for-process/event, yield/resume and waits on resource, pool, buffer, queues and condition; a ledger of issued notifications decides that every non-success return is exactly one undelivered notification at its instant, that success of hold means start+d, that nothing of a finished wait stays queued, and that nobody is left suspended at quiescence.', 'DESIGN.md section 4 C04'),
  'C05': sim('Acquire/hold/release/preempt scripts of 3-4 processes with symbolic priorities and hold times (0 allowed), waiters that time out, are interrupted or stopped, holders that exit, return or are stopped; shadow owner vs. every successful return and the holder/in-use/available queries after every event.', 'DESIGN.md section 4 C05'),
  'C06': dict(engine='E2 cbmc + E1 symex', technique='CBMC: ordering function = documented lexicographic strict order for all triples; E1: symbolic priorities/arrival instants over waiter scripts',
@@ -51,9 +51,9 @@ CHECKS.update({
 })
 CHECKS.update({
  'C10': dict(engine='E1 symex', technique='memory-safety / UB / abort checking built into the symbolic executor, run over growth-threshold and empty-container families',
-             text='Every load/store is bounds-, liveness-, initialisation- and alignment-checked, every signed arithmetic, shift, division and float->int conversion is checked for undefinedness, and every library release assert / abort is a violation when the harness respected the documented preconditions. Families: event queue at capacity (7-17 pending) while the dispatcher wakes 2-17 waiters of the executing or cancelled event, 9-27 processes queued on one resource / pool / condition, 1-300 waiters of an ending process, 66-130 pool chunks, data arrays at 1024->1025, empty and single-sample containers, plus a cross-section of the scenario families of the other properties.',
+             text='Every load/store is bounds-, liveness-, initialisation- and alignment-checked, every signed arithmetic, shift, division and float->int conversion is checked for undefinedness, and every library release assert / abort is a violation when the harness respected the documented preconditions. Families: event queue at capacity (7-17 pending) while the dispatcher wakes 2-17 waiters of the executing or cancelled event, 9-27 processes queued on one resource / pool / condition, 1-300 waiters of an ending process, 66-130 pool chunks, data arrays at 1024->1025, empty and single-sample containers, a cross-section of the scenario families of the other properties, orderly shut-down after 27 of them (stop, terminate, destroy, reports), and the life cycle / reporting functions of datasets, time series, summaries, logger and names (harness/h_api.c).',
              ref='DESIGN.md section 4 C10', note=E1NOTE + '; allocation failure, stack overflow of coroutine stacks, -DNASSERT builds and output formatting are outside; sanitizer builds are used only to confirm counterexamples'),
- 'C16': dict(engine='E1 symex + E2 cbmc', technique='every raw generator output is a fresh solver variable; support assertions decided by z3 (exact reals) and, for dice, by CBMC with IEEE semantics',
+ 'C16': dict(engine='E1 symex + E2 cbmc', technique='every raw generator output is a fresh solver variable; support assertions and the floating-point traps of experiments decided by z3 (exact reals); dice, uniform on a grid and the alias-table law by CBMC with IEEE semantics',
              text='SUPPORT half of the property only: uniform, Bernoulli, flip, triangular, dice (bit-exact, all a<b within +-2^31 and every draw), loaded dice and alias tables (1-3 symbolic probabilities within the accepted tolerance), Pareto, binomial, geometric and negative binomial at p = 1; on the ziggurat hot paths for listed layers, 2-4 concrete shape values on both sides of 1 (std_gamma: any shape in [0.01, 4], first iteration) and 3-6 raw draws per call chain: logistic, normal, lognormal, Rayleigh, Cauchy, exponential, Erlang, hypo-/hyperexponential, Weibull, Poisson, gamma, beta, PERT, chi-squared, F, t. The distributional half (moments / frequencies converge) is not applicable to bounded solver-based checking; the ziggurat fall-back paths beyond 6 (thorough 21) index bytes and 4 draws, the geometry of the generated tables, IEEE rounding of uniform/triangular and floating-point under-/overflow are not decided.',
              ref='DESIGN.md section 4 C16', note='over-approximation: any 64-bit value may be drawn; exact reals except the CBMC dice harness; libm as uninterpreted functions with sign/monotonicity contracts; ' + E1NOTE),
  'C19': dict(engine='E1 symex (engine threads)', technique='symbolic execution of cimba_run_experiment and worker_thread_func with interpreter threads; every schedule within a preemption bound is a forked state; isolation by self-composition',
